@@ -17,7 +17,7 @@ FUNCTIONS = ["solvor.cp.Model.solve / _solve_dfs / _propagate* / _choose_solver"
              "solvor.cp_encoder.SATEncoder.solve (incl. decode_sat_solution)", "solvor.sat.solve_sat (as called by the encoder)"]
 BOUNDS = {
     "quick": "same program space as C06 quick (every linear shape of the operator grammar x ==/!= x 4 sampled instantiations, every global constraint, "
-             "120 two-constraint programs, and global+simple constraint pairs in both orders); each program solved with solver in {auto, dfs, sat} on fresh models and once more on ONE shared model "
+             "120 two-constraint programs, global+simple constraint pairs in both orders, 7 compound-expression shapes, degenerate globals (empty / singleton lists, zero durations), no_overlap over every ordered pair of 6 heterogeneous windows x 7 duration pairs, sums of 1..5 terms systematically, zero-weight-variable pairs); each program solved with solver in {auto, dfs, sat} on fresh models and once more on ONE shared model "
              "object (auto then sat then dfs); hints absent / in-domain / out-of-domain; solution_limit a symbolic Int in 1..4",
     "thorough": "C06 thorough program space",
 }
